@@ -44,15 +44,37 @@ def run(ctx):
     prog = ctx.program
     mod = prog.module('strutils')
     f = prog.func('strutils.args2sh')
-    # the safety predicate: whatever module-level compiled-regex method args2sh calls on the argument
-    cands = []
-    for n in ast.walk(f.node):
-        if isinstance(n, ast.Call) and isinstance(n.func, ast.Name) and n.func.id in mod.assigns:
-            e = mod.const_expr(n.func.id)
-            if isinstance(e, ast.Attribute) and isinstance(e.value, ast.Call) and call_name(e.value) == 're.compile':
-                cands.append(n.func.id)
+    folder0 = Folder(mod)
+
+    def cval(e):
+        """constant value of an expression (literal or folded module constant), else None"""
+        if isinstance(e, ast.Constant):
+            return e.value
+        try:
+            return folder0.fold(e)
+        except Unknown:
+            return None
+
+    def regex_pred_calls(fn):
+        out = []
+        for n in ast.walk(fn.node):
+            if isinstance(n, ast.Call) and isinstance(n.func, ast.Name) and n.func.id in mod.assigns:
+                e = mod.const_expr(n.func.id)
+                if isinstance(e, ast.Attribute) and isinstance(e.value, ast.Call) and call_name(e.value) == 're.compile':
+                    out.append(n.func.id)
+        return out
+    # the emitter: args2sh itself, or the module-level helper it maps over its arguments
+    emitter, via_helper = f, False
+    cands = regex_pred_calls(f)
+    if not cands:
+        for n in ast.walk(f.node):
+            if isinstance(n, ast.Call) and isinstance(n.func, ast.Name) and n.func.id in mod.functions and len(n.args) == 1:
+                h = mod.functions[n.func.id]
+                if regex_pred_calls(h):
+                    emitter, via_helper = h, True
+                    cands = regex_pred_calls(h)
     if len(set(cands)) != 1:
-        raise AnalysisError('anchor vanished: args2sh does not call exactly one compiled-regex predicate (%s)' % sorted(set(cands)))
+        raise AnalysisError('anchor vanished: args2sh does not reach exactly one compiled-regex predicate (%s)' % sorted(set(cands)))
     PRED = cands[0]
     pat, flags, node, attr = module_regex(prog, 'strutils', PRED)
     where = '%s:%d' % (mod.relpath, node.lineno)
@@ -77,7 +99,6 @@ def run(ctx):
         form_ok = True
         det = 'search for a character outside the class'
     else:
-        # positive whole-string form:  \A? [class]+ \Z   via match/fullmatch
         core = [(op, av) for op, av in items if op is not sre_c.AT]
         ats = [av for op, av in items if op is sre_c.AT]
         positive = len(core) == 1 and core[0][0] in (sre_c.MAX_REPEAT,) and len(core[0][1][2]) == 1 and \
@@ -96,52 +117,58 @@ def run(ctx):
                ch in SHLEX_SAFE, loc=where)
     ctx.ob('T12.flags', 'strutils.' + PRED, 'no flag widens the class (IGNORECASE/UNICODE categories)',
            'IGNORECASE' not in flags and 're.I' not in flags, loc=where)
-    # args2sh emission paths
-    w, paths = paths_of(prog, f)
+    # emission paths of the emitter
+    w, paths = paths_of(prog, emitter)
     n_raw = n_q = n_e = 0
     for pth in paths:
-        for o in pth.ops:
-            if o.kind == 'call' and isinstance(o.val.func, ast.Attribute) and o.val.func.attr == 'append' and o.val.args:
-                a = o.val.args[0]
-                at = txt(w.expand(a))
-                ts = tests_on(w, pth, upto_seq=o.seq)
-                # tests of this loop iteration only: those after the last iter_next
-                last_iter = max([x.seq for x in pth.ops if x.kind == 'iter_next' and x.seq < o.seq] or [-1])
-                ts = [t for t in ts if t[2].seq > last_iter]
-                if isinstance(a, ast.Name) and a.id.startswith('$e'):
-                    n_raw += 1
-                    callt = '%s(%s)' % (PRED, txt(a))
-                    found_nothing = any(t == callt + ' is None' and truth for t, truth, _ in ts) or \
-                        any(t == callt and not truth for t, truth, _ in ts) or \
-                        any(t == callt + ' is not None' and not truth for t, truth, _ in ts)
-                    matched = any(t == callt + ' is not None' and truth for t, truth, _ in ts) or \
-                        any(t == callt and truth for t, truth, _ in ts) or \
-                        any(t == callt + ' is None' and not truth for t, truth, _ in ts)
-                    ok = found_nothing if negative else matched
-                    nonempty = any(t == txt(a) and truth for t, truth, _ in ts) or (positive and ok)
-                    ctx.ob('T13.sh', f.fq, 'an argument is emitted unquoted only when the unsafe-character search found nothing '
-                           '(and it is not empty)', ok and nonempty, loc=loc(f, o.node), path=pth.describe() if not (ok and nonempty) else None)
-                elif at in ('"\'\'"', "\"''\""):
-                    n_e += 1
-                    ok = any(truth is False and t.startswith('$e') for t, truth, _ in ts)
-                    ctx.ob('T13.sh', f.fq, "the empty argument is emitted as ''", ok, loc=loc(f, o.node))
-                else:
-                    n_q += 1
-                    e = w.expand(a)
-                    ok = False
-                    det = at
-                    # "'" + X.replace("'", SPLICE) + "'"
-                    if isinstance(e, ast.BinOp) and isinstance(e.op, ast.Add) and isinstance(e.right, ast.Constant) and e.right.value == "'" \
-                            and isinstance(e.left, ast.BinOp) and isinstance(e.left.left, ast.Constant) and e.left.left.value == "'":
-                        mid = e.left.right
-                        if isinstance(mid, ast.Call) and isinstance(mid.func, ast.Attribute) and mid.func.attr == 'replace' \
-                                and len(mid.args) == 2 and all(isinstance(x, ast.Constant) for x in mid.args):
-                            ok = mid.args[0].value == "'" and mid.args[1].value in ("'\"'\"'", "'\\''") and \
-                                isinstance(mid.func.value, ast.Name) and mid.func.value.id.startswith('$e')
-                            det = 'replace(%r, %r)' % (mid.args[0].value, mid.args[1].value)
-                    ctx.ob('T13.sh', f.fq, "other arguments are wrapped in single quotes with every ' spliced as close-quote, "
-                           "quoted ', reopen-quote", ok, loc=loc(f, o.node), detail=det)
-    ctx.ob('T13.sh', f.fq, 'all three emission forms exist (raw, empty, quoted)', n_raw > 0 and n_q > 0 and n_e > 0, loc=f.loc)
+        ems = []       # (value, op, subject text, tests in scope)
+        if via_helper:
+            if pth.kind == 'return':
+                subj = emitter.params[0]
+                ems.append((pth.outcome[1], pth.ops[-1], subj, tests_on(w, pth)))
+        else:
+            for o in pth.ops:
+                if o.kind == 'call' and isinstance(o.val.func, ast.Attribute) and o.val.func.attr == 'append' and o.val.args:
+                    last_iter = max([x.seq for x in pth.ops if x.kind == 'iter_next' and x.seq < o.seq] or [-1])
+                    ts = [t for t in tests_on(w, pth, upto_seq=o.seq) if t[2].seq > last_iter]
+                    elem = [x for x in pth.ops if x.kind == 'name_store' and x.seq > last_iter and x.seq < o.seq and
+                            isinstance(x.val, ast.Name) and x.val.id.startswith('$e')]
+                    subj = elem[0].val.id if elem else None
+                    ems.append((o.val.args[0], o, subj, ts))
+        for a, o, subj, ts in ems:
+            if subj is None:
+                continue
+            at = txt(a)
+            e = w.expand(a)
+            cv = cval(e)
+            callt = '%s(%s)' % (PRED, subj)
+            if at == subj:
+                n_raw += 1
+                found_nothing = any((t == callt + ' is None' and truth) or (t == callt and not truth) or
+                                    (t == callt + ' is not None' and not truth) for t, truth, _ in ts)
+                matched = any((t == callt + ' is not None' and truth) or (t == callt and truth) or
+                              (t == callt + ' is None' and not truth) for t, truth, _ in ts)
+                ok = found_nothing if negative else matched
+                nonempty = any(t == subj and truth for t, truth, _ in ts) or (positive and ok)
+                ctx.ob('T13.sh', emitter.fq, 'an argument is emitted unquoted only when the unsafe-character search found nothing '
+                       '(and it is not empty)', ok and nonempty, loc=loc(emitter, o.node), path=pth.describe() if not (ok and nonempty) else None)
+            elif cv == "''":
+                n_e += 1
+                ok = any(t == subj and not truth for t, truth, _ in ts)
+                ctx.ob('T13.sh', emitter.fq, "the empty argument is emitted as ''", ok, loc=loc(emitter, o.node))
+            else:
+                n_q += 1
+                ok = False
+                det2 = txt(e)
+                if isinstance(e, ast.BinOp) and isinstance(e.op, ast.Add) and cval(e.right) == "'" \
+                        and isinstance(e.left, ast.BinOp) and cval(e.left.left) == "'":
+                    mid = e.left.right
+                    if isinstance(mid, ast.Call) and isinstance(mid.func, ast.Attribute) and mid.func.attr == 'replace' and len(mid.args) == 2:
+                        ok = cval(mid.args[0]) == "'" and cval(mid.args[1]) in ("'\"'\"'", "'\\''") and txt(mid.func.value) == subj
+                        det2 = 'replace(%r, %r)' % (cval(mid.args[0]), cval(mid.args[1]))
+                ctx.ob('T13.sh', emitter.fq, "other arguments are wrapped in single quotes with every ' spliced as close-quote, "
+                       "quoted ', reopen-quote", ok, loc=loc(emitter, o.node), detail=det2)
+    ctx.ob('T13.sh', emitter.fq, 'all three emission forms exist (raw, empty, quoted)', n_raw > 0 and n_q > 0 and n_e > 0, loc=emitter.loc)
     # dispatch
     e = prog.func('strutils.escape_shell_args')
     body = ast.unparse(e.node)
@@ -156,48 +183,61 @@ def run(ctx):
     raises = any(isinstance(n, ast.Raise) and 'ValueError' in txt(n.exc) for n in e.node.body)
     ctx.ob('T17.dispatch', e.fq, "style 'sh' -> args2sh, 'cmd' -> args2cmd, anything else -> ValueError",
            pairs == {'sh': 'args2sh', 'cmd': 'args2cmd'} and raises, loc=e.loc, detail=str(pairs))
-    # args2cmd: backslash doubling
+    # args2cmd: backslash doubling (roles discovered: char loop variable, backslash buffer, output list)
     c = prog.func('strutils.args2cmd')
+    BUF = OUT = CH = None
+    for n in ast.walk(c.node):
+        if isinstance(n, ast.If) and isinstance(n.test, ast.Compare) and isinstance(n.test.left, ast.Name) and \
+                isinstance(n.test.comparators[0], ast.Constant) and n.test.comparators[0].value == '\\':
+            for st in n.body:
+                for x in ast.walk(st):
+                    if isinstance(x, ast.Call) and isinstance(x.func, ast.Attribute) and x.func.attr == 'append' and x.args \
+                            and txt(x.args[0]) == n.test.left.id and isinstance(x.func.value, ast.Name):
+                        BUF, CH = x.func.value.id, n.test.left.id
+    for n in ast.walk(c.node):
+        if isinstance(n, ast.Return) and isinstance(n.value, ast.Call) and isinstance(n.value.func, ast.Attribute) and \
+                n.value.func.attr == 'join' and n.value.args and isinstance(n.value.args[0], ast.Name):
+            OUT = n.value.args[0].id
+    if not (BUF and OUT and CH):
+        raise AnalysisError('anchor vanished: args2cmd backslash buffer / output list / char loop (%s, %s, %s)' % (BUF, OUT, CH))
 
     class OneArg(Quiet):
         def unroll(self, stmt):
-            # one argument at a time (the per-argument state is reset at the top of the loop body)
-            if isinstance(stmt, ast.For) and txt(stmt.target) == 'arg':
+            if isinstance(stmt, ast.For) and txt(stmt.target) != CH:
                 return 1
             return self.loop_unroll
     w, paths = paths_of(prog, c, model=OneArg(prog))
     n_close = n_quote = 0
     for pth in paths:
         ops = pth.ops
-        for i, o in enumerate(ops):
-            if o.kind == 'call' and isinstance(o.val.func, ast.Attribute) and o.val.func.attr == 'append' and o.val.args:
-                at = txt(w.expand(o.val.args[0]))
-                if at in ("'\"'", '"\\""'):
-                    # closing quote if bs buffer was tested non-empty since the last char loop
-                    last_iter = max([x.seq for x in ops if x.kind == 'iter_next' and x.seq < o.seq and txt(x.node.target) != 'arg'] or [-1])
-                    seg = [x for x in ops if last_iter < x.seq < o.seq]
-                    bs_tests = [x for x in seg if x.kind == 'test' and txt(x.node) == 'bs_buf' and x.info is True]
-                    opening = not any(x.kind == 'iter_next' and txt(x.node.target) == 'c' for x in ops if x.seq < o.seq and
-                                      x.seq > max([y.seq for y in ops if y.kind == 'iter_next' and txt(y.node.target) == 'arg' and y.seq < o.seq] or [-1]))
-                    if bs_tests and not opening:
-                        n_close += 1
-                        ext = [x for x in seg if x.kind == 'call' and isinstance(x.val.func, ast.Attribute)
-                               and x.val.func.attr == 'extend' and x.seq > bs_tests[0].seq]
-                        mult = [x for x in seg if x.kind == 'call' and isinstance(x.val.func, ast.Attribute) and x.val.func.attr == 'append'
-                                and '* 2' in txt(x.node) and x.seq > bs_tests[0].seq]
-                        ok = len(ext) >= 2 or bool(mult)
-                        ctx.ob('T9.cmd', c.fq, 'pending backslashes are doubled before the closing quote of a quoted argument',
-                               ok, loc=loc(c, o.node), path=pth.describe() if not ok else None)
-                if at in ("'\\\\\"'",):
-                    n_quote += 1
-                    prev = [x for x in ops if x.seq < o.seq and x.kind == 'call' and isinstance(x.val.func, ast.Attribute)
-                            and x.val.func.attr == 'append'][-1:]
-                    ok = bool(prev) and 'len(bs_buf)' in txt(prev[0].node) and '2' in txt(prev[0].node)
-                    ctx.ob('T9.cmd', c.fq, 'an embedded quote is preceded by twice the pending backslashes and escaped', ok,
-                           loc=loc(c, o.node))
+        outs = [o for o in ops if o.kind == 'call' and isinstance(o.node.func, ast.Attribute) and txt(o.node.func.value) == OUT
+                and o.node.func.attr in ('append', 'extend') and o.node.args]
+        char_iters = [x for x in ops if x.kind == 'iter_next' and txt(x.node.target) == CH]
+        loop_end = max([x.seq for x in char_iters if x.info is False] or [-1])
+        for o in outs:
+            if o.node.func.attr != 'append':
+                continue
+            v = cval(w.expand(o.val.args[0]))
+            if v == '"' and loop_end >= 0 and o.seq > loop_end:
+                # closing quote of a quoted argument
+                n_close += 1
+                seg = [x for x in ops if loop_end < x.seq < o.seq]
+                exts = [x for x in seg if x in outs and x.node.func.attr == 'extend' and txt(x.node.args[0]) == BUF]
+                mult = [x for x in seg if x in outs and x.node.func.attr == 'append' and 'len(%s)' % BUF in txt(x.node) and '2' in txt(x.node)]
+                empty = any(x.kind == 'test' and txt(x.node) == BUF and x.info is False for x in seg)
+                # the buffer may be extended once under `if BUF:` and once unconditionally, or doubled by multiplication
+                ok = len(exts) >= 2 or bool(mult) or (empty and len(exts) >= 1)
+                ctx.ob('T9.cmd', c.fq, 'pending backslashes are emitted twice (doubled) before the closing quote of a quoted argument',
+                       ok, loc=loc(c, o.node), path=pth.describe() if not ok else None)
+            if v == '\\"':
+                n_quote += 1
+                prev = [x for x in outs if x.seq < o.seq][-1:]
+                pe = txt(w.expand(prev[0].val.args[0])) if prev else ''
+                ok = bool(prev) and 'len(' in pe and '2' in pe and "'\\\\'" in pe
+                ctx.ob('T9.cmd', c.fq, 'an embedded quote is preceded by twice the pending backslashes and escaped', ok,
+                       loc=loc(c, o.node), detail=pe)
     if n_close == 0 or n_quote == 0:
-        ctx.ob('T9.cmd', c.fq, 'closing-quote and embedded-quote emission sites found', False, loc=c.loc,
-               detail='closing sites %d, embedded-quote sites %d' % (n_close, n_quote))
+        raise AnalysisError('args2cmd: closing-quote (%d) / embedded-quote (%d) emission sites not recognised' % (n_close, n_quote))
     # gzip
     gz = prog.func('strutils.gzip_bytes')
     gu = prog.func('strutils.gunzip_bytes')
@@ -210,8 +250,12 @@ def run(ctx):
     w, paths = paths_of(prog, gz)
     order_ok = True
     for pth in paths:
-        names = [x.val.func.attr for x in pth.ops if x.kind == 'call' and isinstance(x.val.func, ast.Attribute)
-                 and x.val.func.attr in ('write', 'close', 'getvalue')]
+        names = []
+        for x in pth.ops:
+            if x.kind == 'call' and isinstance(x.val.func, ast.Attribute) and x.val.func.attr in ('write', 'close', 'getvalue'):
+                names.append(x.val.func.attr)
+            elif x.kind == 'with_exit' and 'GzipFile' in txt(w.expand(x.val)):
+                names.append('close')          # leaving `with GzipFile(...)` closes it
         order_ok = order_ok and names == ['write', 'close', 'getvalue']
     ctx.ob('T12.gzip', gz.fq, 'writer: GzipFile (gzip container) with the caller\'s level, all bytes written, closed before the '
            'buffer is read', ok and order_ok, loc=gz.loc)
